@@ -16,10 +16,12 @@
     `TInv.mask_iff_comps`;
   * rejections without effect: `opNewEntity_rel_dup`, `opAdd_rel_panic`, `opSetRelations_panic`,
     `setRelationsCore_missing` (a component that carries no target), `setRelationsCore_deadTarget`
-    (a dead target, also through `Unsafe`).
+    (a dead target, caught by `World.setRelations` itself — whatever the pre-validation of the
+    path did).
   Kernel-only proofs, core Lean only.
 -/
 import Ark.Proofs.TargetsAdd
+import Ark.Proofs.RelRejects
 
 set_option autoImplicit false
 
@@ -200,8 +202,8 @@ theorem opAdd_rel_more (run : ProbeRunner) (p : Path) {w : World} {fl : List Nat
     | true => have := h.freeEmpty oldT _ hT hf; omega
   obtain ⟨A, hA, i1, i2, i3, _⟩ := hS.tblArch oldT _ hT
   have hAe := arch_of_get hA
-  have hpre : preCheck p ids rels w = .ok () w := by
-    rcases preCheck_cases p ids rels w with h1 | ⟨k, h1⟩
+  have hpre : preCheck (p.addCheck ids) ids rels w = .ok () w := by
+    rcases preCheck_cases (p.addCheck ids) ids rels w with h1 | ⟨k, h1⟩
     · exact h1
     · cases p <;> simp [opAdd, bind, M.bind, M.get, M.assert, ha, h1] at hok
   have hemp : ids.isEmpty = false := by
@@ -488,8 +490,8 @@ theorem opSetRelations_more (run : ProbeRunner) (p : Path) {w : World} {fl : Lis
     (hhas : ∀ (r : RelID), r ∈ rels → (targetOf w e.id r.comp).isSome = true)
     {w' : World} (hok : opSetRelations run p e mapperIds rels w = .ok () w') :
     SetRelMore w w' := by
-  have hpre : preCheck p mapperIds rels w = .ok () w := by
-    rcases preCheck_cases p mapperIds rels w with h1 | ⟨k, h1⟩
+  have hpre : preCheck p.setRelCheck mapperIds rels w = .ok () w := by
+    rcases preCheck_cases p.setRelCheck mapperIds rels w with h1 | ⟨k, h1⟩
     · exact h1
     · simp [opSetRelations, bind, M.bind, h1] at hok
   simp only [opSetRelations, bind, M.bind, hpre] at hok
@@ -766,13 +768,73 @@ theorem opAdd_rel_panic (run : ProbeRunner) (p : Path) (e : Ent) (ids : List Com
     ∃ (k' : PanicKind), opAdd run p e ids vals rels w = .panic k' w := by
   cases ha : w.alive e with
   | false =>
-    rcases preCheck_cases p ids rels w with h1 | ⟨k1, h1⟩
+    rcases preCheck_cases (p.addCheck ids) ids rels w with h1 | ⟨k1, h1⟩
     · cases p <;> simp [opAdd, bind, M.bind, M.get, M.assert, ha, h1, hcore]
     · cases p <;> simp [opAdd, bind, M.bind, M.get, M.assert, ha, h1]
   | true =>
-    rcases preCheck_cases p ids rels w with h1 | ⟨k1, h1⟩
+    rcases preCheck_cases (p.addCheck ids) ids rels w with h1 | ⟨k1, h1⟩
     · exact ⟨k, by cases p <;> simp [opAdd, bind, M.bind, M.get, M.assert, ha, h1, hcore]⟩
     · exact ⟨k1, by cases p <;> simp [opAdd, bind, M.bind, M.get, M.assert, ha, h1]⟩
+
+/-- a relation the pre-validation of path `p` refuses for its component: not a relation
+    component, or — not through `Map[T]` — not among `ids` -/
+def BadRelComp (w : World) (p : Path) (ids : List Comp) (r : RelID) : Prop :=
+  w.isRelComp r.comp = false ∨ (p ≠ .map1 ∧ r.comp ∉ ids)
+
+theorem relVerdict_isSome_of_bad {w : World} {p : Path} {ids : List Comp} {r : RelID}
+    (hb : BadRelComp w p ids r) : (relVerdict w (checkMask p ids) r).isSome = true := by
+  cases hv : relVerdict w (checkMask p ids) r with
+  | some k => rfl
+  | none =>
+    obtain ⟨_, h2, h3⟩ := relVerdict_none_iff.mp hv
+    rcases hb with hb | ⟨hp, hb⟩
+    · rw [h2] at hb; cases hb
+    · have hm : checkMask p ids = some (Mask.ofList ids) := by
+        cases p <;> first | rfl | exact absurd rfl hp
+      have := h3 _ hm
+      rw [Mask.get_ofList] at this
+      simp [hb] at this
+
+/-- **rejection** (since the repair of the `Unsafe` API: on every path but for the membership
+    check `Map[T]` lacks): `NewEntity` with a relation on a non-relation component or on a
+    component that is not added is refused before anything is touched — in any world -/
+theorem opNewEntity_rel_badRel (run : ProbeRunner) (p : Path) (ids : List Comp)
+    (vals : List (Comp × Val)) (rels : List RelID) (w : World)
+    (hbad : ∃ (r : RelID), r ∈ rels ∧ BadRelComp w p ids r) :
+    ∃ (k : PanicKind), opNewEntity run p ids vals rels w = .panic k w := by
+  obtain ⟨r, hr, hb⟩ := hbad
+  have hs := relsVerdict_isSome hr (relVerdict_isSome_of_bad hb)
+  cases hv : relsVerdict w (checkMask p ids) rels with
+  | none => rw [hv] at hs; cases hs
+  | some k => exact ⟨k, opNewEntity_refused run p ids vals rels w hv⟩
+
+/-- **rejection**: `Add` with a relation on a non-relation component or on a component that is
+    not added is refused with the world unchanged (by the pre-validation; through `Unsafe` with no
+    components, where the membership check is skipped, by `World.add`: `noComponents`) -/
+theorem opAdd_rel_badRel (run : ProbeRunner) (p : Path) (e : Ent) (ids : List Comp)
+    (vals : List (Comp × Val)) (rels : List RelID) (w : World) (hl : w.isLocked = false)
+    (hbad : ∃ (r : RelID), r ∈ rels ∧ BadRelComp w p ids r) :
+    ∃ (k : PanicKind), opAdd run p e ids vals rels w = .panic k w := by
+  by_cases ha : p = .typed ∨ w.alive e = true
+  case neg =>
+    have hp : p ≠ .typed := fun h => ha (Or.inl h)
+    have hd : w.alive e = false := by
+      cases h : w.alive e with
+      | false => rfl
+      | true => exact absurd (Or.inr h) ha
+    exact ⟨_, opAdd_dead_first run p hp e ids vals rels w hd⟩
+  cases hv : relsVerdict w (checkMask (p.addCheck ids) ids) rels with
+  | some k => exact ⟨k, opAdd_refused run p e ids vals rels w ha hv⟩
+  | none =>
+    -- only `Unsafe` with no components lets such a list pass
+    obtain ⟨r, hr, hb⟩ := hbad
+    rcases Path.addCheck_cases p ids with hc | ⟨hp, hids, _⟩
+    · rw [hc] at hv
+      have hs := relsVerdict_isSome hr (relVerdict_isSome_of_bad hb)
+      rw [hv] at hs; cases hs
+    · subst hp; subst hids
+      have hal : w.alive e = true := by rcases ha with h | h; cases h; exact h
+      exact opAdd_rel_panic run .unsafe_ e [] vals rels w (addCore_noComponents w hl e hal rels)
 
 /-- a panic of `World.setRelations` that leaves the world unchanged is a panic of `SetRelations`
     that leaves the world unchanged -/
@@ -780,7 +842,7 @@ theorem opSetRelations_panic (run : ProbeRunner) (p : Path) (e : Ent) (mapperIds
     (rels : List RelID) (w : World) {k : PanicKind}
     (hcore : setRelationsCore run e rels w = .panic k w) :
     ∃ (k' : PanicKind), opSetRelations run p e mapperIds rels w = .panic k' w := by
-  rcases preCheck_cases p mapperIds rels w with h1 | ⟨k1, h1⟩
+  rcases preCheck_cases p.setRelCheck mapperIds rels w with h1 | ⟨k1, h1⟩
   · exact ⟨k, by simp only [opSetRelations, bind, M.bind, h1, hcore]⟩
   · exact ⟨k1, by simp only [opSetRelations, bind, M.bind, h1]⟩
 
@@ -871,8 +933,9 @@ theorem World.getOrCreate_panic_state {a : Nat} {rels : List RelID} {w s : World
         · injection h with _ e2; exact e2.symm
 
 /-- **rejection**: `setRelations` naming a dead target — on relation components the live entity
-    has, none twice — is refused with the world unchanged (so also through `Unsafe`, which does
-    not pre-validate) -/
+    has, none twice — is refused with the world unchanged (by `World.setRelations` itself:
+    independent of the pre-validation of the access path; before the repair of the `Unsafe` API
+    this was what covered `Unsafe.SetRelations`, which did not pre-validate) -/
 theorem setRelationsCore_deadTarget (run : ProbeRunner) {w : World} {fl : List Nat} (h : TInv w fl)
     (hl : w.isLocked = false) {e : Ent} (h2 : 2 ≤ e.id) (hnf : e.id ∉ fl) (ha : w.alive e = true)
     (hsl : e.id < w.pool.ents.length)
